@@ -351,6 +351,12 @@ const HAND: [&str; 24] = [
     "{% for i in b %}{{ i.x }}{{ i.y.z }}{% endfor %}",
 ];
 
+const DEPTH_COMPONENTS: &str = r#"{% component Countdown(n: integer) %}{{ n }}{% if n > 0 %} {{ <Countdown n={n - 1} /> }}{% endif %}{% endcomponent Countdown %}
+{% component Ping(n: integer) %}i{{ n }}{% if n > 0 %}{{ <Pong n={n - 1} /> }}{% endif %}{% endcomponent Ping %}
+{% component Pong(n: integer) %}o{{ n }}{% if n > 0 %}{{ <Ping n={n - 1} /> }}{% endif %}{% endcomponent Pong %}
+{% component Wrap(n: integer) %}<{{ n }}{% if n > 0 %}{% <Wrap n={n - 1}> %}b{{ n }}{% </Wrap> %}{% endif %}{{ body | default(value="-") }}>{% endcomponent Wrap %}
+{% component ViaInclude(n: integer) %}v{{ n }}{% if n > 0 %}{% include "inc_step.html" %}{% endif %}{% endcomponent ViaInclude %}"#;
+
 const COMPONENTS: &str = r#"{% component Button(label, variant="primary") %}<button class="{{ variant }}">{{ label }}</button>{% endcomponent Button %}
 {% component Card(title) %}<div><h1>{{ title }}</h1>{{ body }}</div>{% endcomponent Card %}
 {% component Display(content) %}{{ content }}{% endcomponent Display %}
@@ -364,6 +370,8 @@ struct Suite {
     sources: serde_json::Value,
     /// shared Gallina definition of the template list for the model-side families
     model: Option<(String, String, Vec<TemplateListing>)>,
+    /// contexts to use instead of the default selection
+    ctxs: Option<Vec<(String, Vec<(String, Value)>)>>,
 }
 
 fn listings_of(tera: &Tera, names: &[String]) -> Option<Vec<TemplateListing>> {
@@ -476,7 +484,7 @@ fn replay(path: &std::path::Path) {
     tera.autoescape_on(vec![".html"]);
     if let Some(arr) = sources.as_array() {
         let set: Vec<(String, String)> = arr.iter().filter_map(|p| Some((p.get(0)?.as_str()?.to_string(), p.get(1)?.as_str()?.to_string()))).collect();
-        if set.iter().any(|(n, _)| n == "components.html") {
+        if set.iter().any(|(n, _)| n == "components.html" || n == "depth_components.html") {
             tera = Tera::default();
         }
         if let Err(e) = tera.add_raw_templates(set) {
@@ -500,6 +508,9 @@ fn replay(path: &std::path::Path) {
     let cname = inp.get("context").and_then(|x| x.as_str()).unwrap_or("empty");
     let mut all = contexts();
     all.push(corpus_context());
+    for d in 0u64..64 {
+        all.push((format!("n={d}"), vec![("n".to_string(), Value::from(d))]));
+    }
     let c = all.iter().find(|(n, _)| n == cname).map(|(_, c)| c.clone()).unwrap_or_default();
     let ctx = to_context(&c);
     silence_panics();
@@ -585,7 +596,7 @@ fn main() {
         jobs.push(Job::Str { src: src.clone(), ae: true });
         jobs.push(Job::Str { src: src.clone(), ae: false });
         let model = listings_of(&tera, &names).map(model_defs);
-        suites.push(Suite { label: label.clone(), tera, jobs, sources: json!({"t.html/t.txt": src}), model });
+        suites.push(Suite { label: label.clone(), tera, jobs, sources: json!({"t.html/t.txt": src}), model, ctxs: None });
     }
     let n_sets = if thorough { 250 } else { 20 };
     for k in 0..n_sets {
@@ -598,7 +609,7 @@ fn main() {
         let names: Vec<String> = set.iter().map(|(n, _)| n.clone()).collect();
         let jobs = block_jobs(&tera, &names);
         let model = listings_of(&tera, &names).map(model_defs);
-        suites.push(Suite { label: format!("set#{k}"), tera, jobs, sources: json!(set), model });
+        suites.push(Suite { label: format!("set#{k}"), tera, jobs, sources: json!(set), model, ctxs: None });
     }
     // components (hand-written) and templates calling them
     {
@@ -615,7 +626,51 @@ fn main() {
                 jobs.push(Job::Component { name: name.into(), body: body.map(|s: &str| s.to_string()), ae });
             }
         }
-        suites.push(Suite { label: "components".into(), tera, jobs, sources: json!(set), model: None });
+        suites.push(Suite { label: "components".into(), tera, jobs, sources: json!(set), model: None, ctxs: None });
+    }
+    // component recursion at the engine's depth limit (MAX_COMPONENT_RECURSION_DEPTH = 20): self-
+    // and mutually recursive components, with bodies and through an include, driven to nesting
+    // depths around the limit through every entry point. Both channels of each entry point must
+    // reach the limit at the same depth.
+    {
+        let mut tera = Tera::default();
+        let set: Vec<(String, String)> = vec![
+            ("depth_components.html".into(), DEPTH_COMPONENTS.to_string()),
+            ("inc_step.html".into(), "{{ <ViaInclude n={n - 1} /> }}".into()),
+            ("page_self.html".into(), "p:{{ <Countdown n={n} /> }}".into()),
+            ("page_mutual.html".into(), "p:{{ <Ping n={n} /> }}".into()),
+            ("page_body.html".into(), "p:{% <Wrap n={n}> %}top{% </Wrap> %}".into()),
+            ("page_include.html".into(), "p:{{ <ViaInclude n={n} /> }}".into()),
+            ("page_via_include.html".into(), "q:{% include \"page_self.html\" %}".into()),
+        ];
+        tera.add_raw_templates(set.clone()).expect("depth suite");
+        let mut jobs = Vec::new();
+        for page in ["page_self.html", "page_mutual.html", "page_body.html", "page_include.html", "page_via_include.html"] {
+            jobs.push(Job::Render(page.into()));
+        }
+        for (name, body) in [("Countdown", None), ("Ping", None), ("Pong", None), ("Wrap", None), ("Wrap", Some("<b>")), ("ViaInclude", None)] {
+            for ae in [true, false] {
+                jobs.push(Job::Component { name: name.into(), body: body.map(|s: &str| s.to_string()), ae });
+            }
+        }
+        for src in ["s:{{ <Countdown n={n} /> }}", "s:{{ <Pong n={n} /> }}", "s:{% <Wrap n={n}> %}x{% </Wrap> %}", "s:{{ <ViaInclude n={n} /> }}"] {
+            jobs.push(Job::Str { src: src.into(), ae: true });
+        }
+        // find the limit by probing (robust against a changed MAX_COMPONENT_RECURSION_DEPTH), then
+        // sweep around it
+        let mut first_fail = 21u64;
+        for d in 1u64..=400 {
+            let mut c = Context::new();
+            c.insert_value("n", Value::from(d));
+            let mut sinkbuf: Vec<u8> = Vec::new();
+            if !matches!(guarded(|| tera.render_component_to("Countdown", &c, None, true, &mut sinkbuf)), Outcome::Ok(())) {
+                first_fail = d;
+                break;
+            }
+        }
+        meta.extra.insert("depth_limit_first_failing_n_via_render_component_to".into(), json!(first_fail));
+        let dctx: Vec<(String, Vec<(String, Value)>)> = (first_fail.saturating_sub(6)..=first_fail + 3).map(|d| (format!("n={d}"), vec![("n".to_string(), Value::from(d))])).collect();
+        suites.push(Suite { label: "depth-limit".into(), tera, jobs, sources: json!(set), model: None, ctxs: Some(dctx) });
     }
     // the engine's own snapshot corpus: sets and single sources
     let mut corpus_n = 0usize;
@@ -631,7 +686,7 @@ fn main() {
             jobs.push(Job::Component { name: cname, body: Some("<b>".into()), ae: false });
         }
         corpus_n += 1;
-        suites.push(Suite { label: format!("corpus:{label}"), tera, jobs, sources: json!(set), model: None });
+        suites.push(Suite { label: format!("corpus:{label}"), tera, jobs, sources: json!(set), model: None, ctxs: None });
     }
     {
         let tera = Tera::default();
@@ -645,7 +700,7 @@ fn main() {
             }
         }
         corpus_n += jobs.len();
-        suites.push(Suite { label: "corpus:singles".into(), tera, jobs, sources: json!("tera/src/snapshot_tests/**/*.txt"), model: None });
+        suites.push(Suite { label: "corpus:singles".into(), tera, jobs, sources: json!("tera/src/snapshot_tests/**/*.txt"), model: None, ctxs: None });
     }
 
     // ---------------- per job x context: API agreement, failing writers, model cases
@@ -654,10 +709,13 @@ fn main() {
     let wfail_rate: (u64, u64) = if thorough { (1, 10) } else { (2, 5) };
     let wcalls_rate: (u64, u64) = if thorough { (1, 40) } else { (1, 9) };
     let mut distinct_behaviours = std::collections::HashSet::new();
+    let mut depth_table: std::collections::BTreeMap<String, Vec<String>> = Default::default();
     for suite in &suites {
         let is_corpus = suite.label.starts_with("corpus") || suite.label == "components";
         let mut cs: Vec<&(String, Vec<(String, Value)>)> = Vec::new();
-        if is_corpus {
+        if let Some(own) = &suite.ctxs {
+            cs.extend(own.iter());
+        } else if is_corpus {
             cs.push(&cctx);
             cs.push(&ctxs[1]);
         } else {
@@ -684,6 +742,9 @@ fn main() {
                     if o == "panic" {
                         meta.oracle_fail(&format!("panic in the {what} variant of {}", job.api()), None, input());
                     }
+                }
+                if suite.label == "depth-limit" {
+                    depth_table.entry(format!("{}", job.json())).or_insert_with(Vec::new).push(format!("{cname}:{}/{}", class(&s), class(&r)));
                 }
                 if class(&s) != class(&r) || class(&r) != class(&v) {
                     meta.oracle_fail(&format!("{}: outcome classes differ: String {} / writer {} / Vec {}", job.api(), class(&s), class(&r), class(&v)), None, input());
@@ -1021,6 +1082,22 @@ fn main() {
     meta.extra.insert("interior_mutability_hits".into(), json!(hits.iter().map(|(f, k, l, t)| json!({"file": f, "kind": k, "line": l, "text": t})).collect::<Vec<_>>()));
     meta.extra.insert("interior_mutability_tokens".into(), json!(TOKENS));
     meta.extra.insert("send_sync_compile_checked".into(), json!(["Tera", "Context", "Value", "Error", "Kwargs", "Map", "Arc<Tera>"]));
+    {
+        // per entry point: the largest n at which both channels still succeed (must exist and be
+        // followed by failures, otherwise the sweep did not straddle the limit)
+        let mut straddled = 0usize;
+        let mut summary = serde_json::Map::new();
+        for (job, rows) in &depth_table {
+            let oks = rows.iter().filter(|r| r.ends_with(":ok/ok")).count();
+            if oks > 0 && oks < rows.len() {
+                straddled += 1;
+            }
+            summary.insert(job.clone(), json!(rows));
+        }
+        meta.extra.insert("depth_limit_entry_points".into(), json!(depth_table.len()));
+        meta.extra.insert("depth_limit_entry_points_straddling_the_limit".into(), json!(straddled));
+        meta.extra.insert("depth_limit_table".into(), serde_json::Value::Object(summary));
+    }
     meta.extra.insert("suites".into(), json!(suites.len()));
     meta.extra.insert("corpus_items".into(), json!(corpus_n));
     meta.extra.insert("api_agreement_checks".into(), json!(st.api_checks));
